@@ -235,21 +235,24 @@ fn h1_box(prop: &str, thorough: bool) -> Vec<(Body, usize)> {
                         }
                     }
                     "C08" => {
-                        // quick tier: the 2-worker searches with preemptions keep their bound only for
-                        // the core variants, the remaining variants are explored without preemptions
-                        let costly = !thorough && t >= 2 && bound >= 1;
+                        // the 2-worker searches with preemptions keep their full bound only for the core
+                        // variants; the remaining variants are explored with a smaller bound (quick: 0,
+                        // thorough: 1)
+                        let costly = t >= 2 && bound >= 1;
+                        let low = if !costly { bound } else if thorough { 1 } else { 0 };
                         for k in 0..=s + 1 {
-                            push(H1 { consumer: Consumer::StopAfter(k), ..base.clone() }, if costly && k != 1 { 0 } else { bound });
+                            push(H1 { consumer: Consumer::StopAfter(k), ..base.clone() }, if k == 1 { bound } else { low });
                         }
                         push(base.clone(), bound);
                         for e in 0..=s {
-                            push(H1 { err_at: Some(e), ..base.clone() }, if costly && e != 1 { 0 } else { bound });
-                            push(H1 { err_at: Some(e), consumer: Consumer::StopAtError, ..base.clone() }, if costly && e != 1 { 0 } else { bound });
-                            push(H1 { err_at: Some(e), consumer: Consumer::StopAfter(e.min(1)), ..base.clone() }, if costly { 0 } else { bound });
+                            let b = if e == 1 { bound } else { low };
+                            push(H1 { err_at: Some(e), ..base.clone() }, b);
+                            push(H1 { err_at: Some(e), consumer: Consumer::StopAtError, ..base.clone() }, b);
+                            push(H1 { err_at: Some(e), consumer: Consumer::StopAfter(e.min(1)), ..base.clone() }, low);
                         }
                         if s <= 2 {
                             for cons in [Consumer::Drain, Consumer::StopAfter(0), Consumer::StopAfter(1)] {
-                                let b = if costly && cons != Consumer::Drain { 0 } else { bound };
+                                let b = if cons == Consumer::Drain { bound.min(if thorough && costly { 1 } else { bound }) } else { low };
                                 push(H1 { reader_init_fails: true, consumer: cons, ..base.clone() }, b);
                                 for j in 0..=q {
                                     push(H1 { dataset_init_fail_at: Some(j), consumer: cons, ..base.clone() }, b);
@@ -258,15 +261,18 @@ fn h1_box(prop: &str, thorough: bool) -> Vec<(Body, usize)> {
                         }
                     }
                     "C15" => {
+                        let costly = t >= 2 && bound >= 2;
                         for e in 0..=s {
-                            push(H1 { err_at: Some(e), ..base.clone() }, bound);
-                            push(H1 { err_at: Some(e), consumer: Consumer::StopAtError, ..base.clone() }, bound);
+                            let b = if costly && e != 1 { 1 } else { bound };
+                            push(H1 { err_at: Some(e), ..base.clone() }, b);
+                            push(H1 { err_at: Some(e), consumer: Consumer::StopAtError, ..base.clone() }, b);
                         }
                         if s <= 2 {
-                            push(H1 { reader_init_fails: true, ..base.clone() }, bound);
-                            push(H1 { reader_init_fails: true, consumer: Consumer::StopAfter(0), ..base.clone() }, bound);
+                            let b = if costly { 1 } else { bound };
+                            push(H1 { reader_init_fails: true, ..base.clone() }, b);
+                            push(H1 { reader_init_fails: true, consumer: Consumer::StopAfter(0), ..base.clone() }, b);
                             for j in 0..=q {
-                                push(H1 { dataset_init_fail_at: Some(j), ..base.clone() }, bound);
+                                push(H1 { dataset_init_fail_at: Some(j), ..base.clone() }, b);
                             }
                         }
                     }
